@@ -68,6 +68,9 @@ def install(R):
                 out = NdArr.fresh(which, (arr.shape[0],), arr.kind)
                 i, c = z3.Int(fresh_name("mi")), z3.Int(fresh_name("mc"))
                 E.assume(z3.ForAll([i, c], z3.Implies(z3.And(i >= 0, i < z(arr.shape[0]), c >= 0, c < z(arr.shape[1])), le(arr.get(i, c), out.get(i)))))
+                wit = z3.Function(fresh_name("arg" + which), z3.IntSort(), z3.IntSort())         # the bound is attained in every row
+                E.assume(z3.ForAll([i], z3.Implies(z3.And(i >= 0, i < z(arr.shape[0])), z3.And(
+                    wit(i) >= 0, wit(i) < z(arr.shape[1]), arr.get(i, wit(i)) == out.get(i))), patterns=[out.get(i)]))
                 return out
             raise Unsupported("%s(axis=%r) of a %d-d array" % (which, axis, arr.ndim))
         return f
